@@ -24,10 +24,19 @@ namespace TT.C01
 
 variable {α : Type} [Add α] [Mul α] [Zero α] [One α]
 
-/-- force a function on `Fin S` into an array once (sharing for the compiled driver); `memo f = f` -/
-def memo {β : Type} {S : Nat} (f : Fin S → β) : Fin S → β :=
-  let a := Array.ofFn f
-  fun i => a[i.val]'(by rw [Array.size_ofFn]; exact i.isLt)
+/-- a function on `Fin S` tabulated into an array (evaluated once, when the table is built; the
+    compiled driver relies on this for sharing). `(Tab.ofFn f).get = f` (`Tab.get_ofFn`). -/
+structure Tab (β : Type) (S : Nat) where
+  arr : Array β
+  size_eq : arr.size = S
+
+def Tab.ofFn {β : Type} {S : Nat} (f : Fin S → β) : Tab β S := ⟨Array.ofFn f, Array.size_ofFn⟩
+
+def Tab.get {β : Type} {S : Nat} (t : Tab β S) (i : Fin S) : β :=
+  t.arr[i.val]'(by rw [t.size_eq]; exact i.isLt)
+
+theorem Tab.get_ofFn {β : Type} {S : Nat} (f : Fin S → β) (i : Fin S) : (Tab.ofFn f).get i = f i := by
+  simp [Tab.ofFn, Tab.get]
 
 /-- per-site value stored for one node: `[K,S]` -/
 abbrev Partial (α : Type) (K S : Nat) := Fin K → Fin S → α
@@ -50,8 +59,9 @@ def peelStep {K S} (mats : Mats α K S) (st : Store α K S) (t : Nat × Nat × N
     Option (Store α K S) :=
   match st t.2.1, st t.2.2 with
   | some pl, some pr =>
-    some (st.set t.1 (memo fun k => memo fun s =>
-      matVec (mats t.2.1 k) (pl k) s * matVec (mats t.2.2 k) (pr k) s))
+    let tab := Tab.ofFn fun k => Tab.ofFn fun s =>
+      matVec (mats t.2.1 k) (pl k) s * matVec (mats t.2.2 k) (pr k) s
+    some (st.set t.1 fun k s => (tab.get k).get s)
   | _, _ => none
 
 /-- the `for node, left, right in post_indexing` loop -/
@@ -106,7 +116,9 @@ def childTerm {K S} (mats : Mats α K S) (tipCount : Nat) (tipState : Nat → Na
 def peelStepTS {K S} (mats : Mats α K S) (tipCount : Nat) (tipState : Nat → Nat)
     (st : Store α K S) (t : Nat × Nat × Nat) : Option (Store α K S) :=
   match childTerm mats tipCount tipState st t.2.1, childTerm mats tipCount tipState st t.2.2 with
-  | some pl, some pr => some (st.set t.1 (memo fun k => memo fun s => pl k s * pr k s))
+  | some pl, some pr =>
+    let tab := Tab.ofFn fun k => Tab.ofFn fun s => pl k s * pr k s
+    some (st.set t.1 fun k s => (tab.get k).get s)
   | _, _ => none
 
 def peelLoopTS {K S} (mats : Mats α K S) (tipCount : Nat) (tipState : Nat → Nat) :
@@ -128,7 +140,7 @@ def siteLikTS {K S} (π : Fin S → α) (props : Fin K → α) (mats : Mats α K
 /-! ### the specification side: explicit sum over all labelings of the internal nodes -/
 
 /-- one state for every internal node of the tree (tree-shaped record) -/
-def Lab (S : Nat) : ITree → Type
+@[reducible] def Lab (S : Nat) : ITree → Type
   | .leaf _ => Unit
   | .node _ l r => Fin S × Lab S l × Lab S r
 
